@@ -127,7 +127,7 @@ fn check_biguint_events<const L: usize>(r: &Rec, start: usize, a0: &[u64; L]) ->
 macro_rules! ser_shape {
     ($name:ident, $neg:expr, $l:expr) => {
         #[kani::proof]
-        #[kani::unwind(34)]
+        #[kani::unwind(14)]
         fn $name() {
             let a0: [u64; $l] = vc::any_canon::<$l>();
             let mut r = Rec { ev: [(0, 0); 16], n: 0 };
@@ -190,7 +190,7 @@ fn hint_of(k: u8, n: usize) -> Option<usize> {
 macro_rules! de_shape {
     ($name:ident, $n:expr, $w:expr, $hk:expr) => {
         #[kani::proof]
-        #[kani::unwind(34)]
+        #[kani::unwind(14)]
         #[kani::stub(alloc::vec::Vec::shrink_to_fit, vc::noop_shrink)]
         #[kani::stub(alloc::vec::Vec::with_capacity, vc::vec_with_capacity_ignored)]
         fn $name() {
@@ -247,7 +247,7 @@ impl<'de, 'a> serde::Deserializer<'de> for PairDe<'a> {
 macro_rules! de_int_shape {
     ($name:ident, $n:expr, $w:expr) => {
         #[kani::proof]
-        #[kani::unwind(34)]
+        #[kani::unwind(14)]
         #[kani::stub(alloc::vec::Vec::shrink_to_fit, vc::noop_shrink)]
         #[kani::stub(alloc::vec::Vec::with_capacity, vc::vec_with_capacity_ignored)]
         fn $name() {
